@@ -314,12 +314,17 @@ func Run(c *core.Ctx) {
 		fmt.Sscanf(v, "%d", &par)
 	}
 	nprog := c.Pick(1800, 90000)
+	nsink := c.Pick(400, 12000)
+	if c.Race {
+		// the race build is an additional, slower scheduler; its reports about
+		// breakpoint changes racing with a running thread decide (race_rule)
+		nprog, nsink = c.Pick(320, 9000), c.Pick(64, 1200)
+	}
 	c.Parallel(par, "prog", nprog, func(slot, idx int) {
 		p := genProgram(c.Rng("prog-src", idx/cfgsPerProgram))
 		cfg := genCfg(c.Rng("prog", idx), p, quick)
 		runCase(c, slot, "prog", idx, p, cfg, sigs)
 	})
-	nsink := c.Pick(400, 12000)
 	c.Parallel(par, "sink", nsink, func(slot, idx int) {
 		p := genSinkProgram(c.Rng("sink-src", idx/cfgsPerProgram))
 		cfg := genCfg(c.Rng("sink", idx), p, quick)
